@@ -81,3 +81,8 @@ open Csproto
 #print axioms Csproto.C01.Source.source_roundtrip_sint64
 #print axioms Csproto.C01.Source.source_roundtrip_sint32
 #print axioms Csproto.C01.Source.source_roundtrip_uint32
+
+-- bool paths of the current source: DecodeBool / More / EncodeBool (the byte for false is stored, whatever the destination held)
+#print axioms Csproto.Bridge.DecoderFuncs.DecodeBool_refines
+#print axioms Csproto.Bridge.DecoderFuncs.More_refines
+#print axioms Csproto.Bridge.EncoderFuncs.EncodeBool_refines
